@@ -22,6 +22,12 @@ unsafe impl HasStorage for VDb {
 
 impl crate::Database for VDb {}
 
+impl VDb {
+    pub(crate) fn verif_new(storage: Storage<VDb>) -> Self {
+        VDb { storage }
+    }
+}
+
 /// A `Zalsa` with no ingredients and no event callback.
 pub(crate) fn minimal_zalsa() -> Zalsa {
     Zalsa {
